@@ -243,6 +243,9 @@ def run(ck):
         if exp.get("track_caller"):
             r6(ck, F, name, exp, fn)
     r3_lib(ck, L)
+    # a cancelled (dropped) async body's locals are destroyed inside the span too: Instrumented's Drop (C03.R7's drop clause)
+    from rules import C03 as _C03
+    _C03.r7_drop(ck, L, rid="C17.R3")
 
 
 # ------------------------------------------------------------------------------------------------ R1
